@@ -8,7 +8,10 @@ REQUIRES = ['Queue.Model', 'Queue.Spec']
 RULE = ('all seven queue classes; 1..6 stimuli; every vector of trial counts in {1,2,3}^n for n <= 3 (quick) / n <= 4 (thorough) and '
         'random counts 1..5 for larger n; every group_size 1..n+1 (incl. sizes that do not divide n and sizes larger than n); '
         'keep_complete_waveforms both ways; seeds; waveform lengths 0..6; request chunkings {1 big, unit steps, random}; run to empty and '
-        'well past it. Non-trivial: at least two stimuli with unequal trial counts or a group size that does not divide n.')
+        'well past it. Coverage-audit block: options explicit / defaulted (keep_complete_waveforms, seed) / positional / truthy non-bool / NumPy int, `queues` dict, '
+        'set_fs(), int / NumPy fs, trial counts as NumPy int / float and up to 12, all source containers, delays None / off-grid / cycles, extend() with scalars / '
+        'tuples / ndarrays, true unit-step chunkings, zero-size requests, several requests (NumPy sizes, keywords) after the queue ran out, clone() mid-way. '
+        'Non-trivial: at least two stimuli with unequal trial counts or a group size that does not divide n.')
 TRUSTED = qc.__doc__ and ['harness/queuecore.py', 'RandomState(seed).shuffle blocks recomputed by the harness (oracle: each is a permutation)']
 ASSUMPTIONS = ['automatic decrement (pop_buffer default); no pause', 'trial counts >= 1']
 FS = [1000.0, 195312.5]
@@ -63,7 +66,8 @@ def _audit_cases(quick, rng):
         for mk in ({'opt': 'default', 'via': 'dict'}, {'opt': 'pos', 'fs': 'set_fs'}, {'opt': 'truthy', 'fs_kind': 'int'},
                    {'opt': 'np', 'fs_kind': 'np64', 't0': 'skip'}, {'fs': 'pos', 'via': 'dict'}):
             for _ in range(rep):
-                st = stims(rng.randint(1, 5))
+                st = stims(rng.randint(2, 5))
+                st[0]['trials'], st[-1]['trials'] = rng.choice([(1, 3), (3, 1), (2, 3)])   # unequal: the options matter
                 c = base(pol, st, mk=mk)
                 if mk.get('opt') == 'default':
                     c['seed'] = 0
